@@ -12,7 +12,7 @@ Notation fm := (fm (R:=R)). Notation arr := (arr (R:=R)). Notation op := (op (R:
 Definition permmat (n : nat) (M : fm) := exists p, is_perm n p /\ feq n n M (pmat p).
 Lemma conj_delta i j : conj (delta (R:=R) i j) = delta i j.
 Proof. unfold delta. destruct (Nat.eqb i j); [apply conj_1|apply conj_0]. Qed.
-Lemma ctr_eye n : feq n n (ctr n (eye (R:=R))) eye.
+Lemma ctr_eye n k : feq n n (ctr k (eye (R:=R))) eye.
 Proof. intros i j _ _. unfold ctr, eye. rewrite conj_delta. unfold delta. rewrite Nat.eqb_sym. reflexivity. Qed.
 Lemma lower_eye n : lower n (eye (R:=R)). Proof. intros i j _ _ H. unfold eye, delta. destruct (Nat.eqb_spec i j); [lia|reflexivity]. Qed.
 Lemma upper_eye n : upper n (eye (R:=R)). Proof. intros i j _ _ H. unfold eye, delta. destruct (Nat.eqb_spec i j); [lia|reflexivity]. Qed.
